@@ -50,6 +50,10 @@ def gproof(pid: str, file: str, func: str, props: List[str], must=None, calls=No
                 res.error = "target not found: %r" % (e,)
             except EN.Unsupported as e:
                 res.error = "unsupported construct: %s" % (e,)
+                try:
+                    res.obls = E.obls       # keep what was generated before the engine gave up (refutations still count)
+                except NameError:
+                    pass
             except Exception as e:
                 res.error = "engine exception: %r\n%s" % (e, traceback.format_exc(limit=-6))
             return res
@@ -241,12 +245,12 @@ def _filter_proof(pid, file, func, mk_block, kept, label_cls):
             if hasattr(blk, "_ctx"):
                 blk._ctx = ctx
             return kept(blk, msg)
-        got = run(SymFilter(E, nonempty, member))
-        E.oblige("post:generic", z3.BoolVal(got) == z3.Or(z3.Not(nonempty), member))
-        # exact-name examples (suffix / prefix / case / substring are NOT matches)
+        # exact-name examples (suffix / prefix / case / substring are NOT matches) - run natively on real lists
         for flt, want in ((None, True), ([], True), (["Data"], True), (["SensorData"], False), (["Dat"], False),
                           (["data"], False), (["DataX", "Other"], False), (["Other", "Data"], True), (["Data.Inner"], False)):
             E.oblige("post:example%r" % (flt,), z3.BoolVal(run(flt) is want))
+        got = run(SymFilter(E, nonempty, member))
+        E.oblige("post:generic", z3.BoolVal(got) == z3.Or(z3.Not(nonempty), member))
     return _p
 
 
